@@ -28,6 +28,7 @@ static int vf_write_seen_rdonly;	/* set if a write reaches a descriptor opened r
 static int vf_rdonly;
 static int vf_wr_refused;		/* modifying calls refused on the read-only descriptor */
 static int vf_nopen, vf_open_oflags;
+static int vf_dev_touched;		/* VF_COARSE: a modifying call went through on a writable descriptor */
 
 /* All array indices below are CONCRETE loop counters (the symbolic offset only
  * appears in comparisons): symbolic array indexing made these queries 50x slower. */
@@ -66,6 +67,10 @@ static long vf_do_write(const void *buf, unsigned long n, long off)
 	if (vf_rdonly) { vf_write_seen_rdonly = 1; vf_wr_refused++; errno = EBADF; return -1; }
 	if (vf_fail_write_at >= 0 && vf_nwrites++ >= vf_fail_write_at) { errno = EIO; return -1; }
 	if (off < 0) { errno = EINVAL; return -1; }
+#ifdef VF_COARSE	/* large-block harnesses: a write on a writable descriptor only records that the device was modified */
+	vf_dev_touched = 1;
+	return (long) n;
+#endif
 #ifdef VF_INRANGE
 	PROP(n <= MAXIO && off + (long) n <= vf_dev_size, "env: device request inside the device");
 	for (i = 0; i < n; i++)
@@ -136,6 +141,7 @@ int vf_fallocate(int fd, int mode, __off_t off, __off_t len)
 	long i;
 	(void) fd; (void) mode;
 	if (vf_rdonly) { vf_write_seen_rdonly = 1; vf_wr_refused++; errno = EBADF; return -1; }
+	vf_dev_touched = 1;
 	for (i = 0; i < VF_DEVCAP; i++)
 		if (i >= off && i < off + len && i < vf_dev_size)
 			vf_dev[i] = 0;
@@ -147,6 +153,7 @@ int vf_ftruncate(int fd, __off_t len)
 	long i;
 	(void) fd;
 	if (vf_rdonly) { vf_write_seen_rdonly = 1; vf_wr_refused++; errno = EBADF; return -1; }
+	vf_dev_touched = 1;
 	if (len > VF_DEVCAP) { errno = EFBIG; return -1; }
 	for (i = 0; i < VF_DEVCAP; i++)
 		if (i >= vf_dev_size && i < len)
